@@ -9,6 +9,8 @@ const IDENT_LIKE: &[&str] = &[
     "x", "X", "foo", "Tom", "Sawyer", "élan", "Ünï", "жук", "日本", "λx", "abc1", "a1b", "1abc", "x_y",
     "_x", "x_", "a_1", "ab12cd", "q9", "don't", "rock'n'roll", "it's", "they're", "x's", "Y're", "o'",
     "'bout", "n", "s", "re", "K's", "İ're", "ẞ's", "Ω's", "K'", "aKa's", "Éa", "ÉLAN's", "é's",
+    // suffixes next to what ends or spoils a word
+    "Tommy's'", "x's''", "they're'", "Tommy2's", "a_b're", "x😀's", "ab1's", "x's's", "x're's", "x''s",
 ];
 const NUMBERS: &[&str] = &[
     "0", "1", "5", "42", "3.14", ".5", "5.", "1e3", "1E3", "1e", "1.2.3", "00", "0x10", "1e999", "٣", "½",
